@@ -164,147 +164,185 @@ func rlClone(w *World) {
 		"file":    "the AST is immutable after parsing and shared by design",
 		"ifNoAST": "immutable placeholder node holding only the file name",
 	}
-	// find composite literals of type result inside Clone
+	// the copy constructor: Clone and the helpers of clone.go it (transitively) calls that are not
+	// the index re-creation functions — e.g. a cloneResult helper extracted from the *result branch
+	scopeBodies := []*ast.BlockStmt{clone.Decl.Body}
+	{
+		seen := map[*types.Func]bool{clone.Obj: true}
+		frontier := []*ast.BlockStmt{clone.Decl.Body}
+		for depth := 0; depth < 2 && len(frontier) > 0; depth++ {
+			var next []*ast.BlockStmt
+			for _, fb := range frontier {
+				ast.Inspect(fb, func(x ast.Node) bool {
+					c, ok := x.(*ast.CallExpr)
+					if !ok {
+						return true
+					}
+					f := callee(info, c)
+					if f == nil || f.Pkg() != p.Types || seen[f.Origin()] {
+						return true
+					}
+					seen[f.Origin()] = true
+					d := w.decls[f.Origin()]
+					if d == nil || d.Body == nil || !strings.HasSuffix(w.Fset.Position(d.Pos()).Filename, "clone.go") {
+						return true
+					}
+					if strings.HasPrefix(f.Name(), "recreateNodeIndex") || strings.HasPrefix(f.Name(), "updateNodeIndex") {
+						return true
+					}
+					scopeBodies = append(scopeBodies, d.Body)
+					next = append(next, d.Body)
+					return true
+				})
+			}
+			frontier = next
+		}
+	}
+	// find composite literals of type result inside the copy constructor
 	nLit := 0
-	ast.Inspect(clone.Decl.Body, func(x ast.Node) bool {
-		cl, ok := x.(*ast.CompositeLit)
-		if !ok {
-			return true
-		}
-		tv, ok := info.Types[cl]
-		if !ok || !types.Identical(tv.Type, resT) {
-			return true
-		}
-		nLit++
-		set := map[string]ast.Expr{}
-		for _, el := range cl.Elts {
-			if kv, ok := el.(*ast.KeyValueExpr); ok {
-				set[render(kv.Key)] = kv.Value
-			}
-		}
-		for i := 0; i < st.NumFields(); i++ {
-			f := st.Field(i)
-			key := "clone-field|result." + f.Name()
-			v, ok := set[f.Name()]
+	for _, curBody := range scopeBodies {
+		ast.Inspect(curBody, func(x ast.Node) bool {
+			cl, ok := x.(*ast.CompositeLit)
 			if !ok {
-				w.violation(key, cl.Pos(), "parser.Clone's copy does not set result."+f.Name()+": the clone silently loses it (a result without an AST then has no placeholder node and node lookups panic)")
-				continue
+				return true
 			}
-			// shared or fresh?
-			if sel, ok := ast.Unparen(v).(*ast.SelectorExpr); ok && selField(info, sel) == f {
-				if why, ok := sharedOK[f.Name()]; ok {
-					w.ok(key, kv(v), "shared with the original on purpose: "+why)
-				} else {
-					w.violation(key, v.Pos(), "result."+f.Name()+" is copied by reference from the original: the clone shares mutable state with it")
+			tv, ok := info.Types[cl]
+			if !ok || !types.Identical(tv.Type, resT) {
+				return true
+			}
+			nLit++
+			set := map[string]ast.Expr{}
+			for _, el := range cl.Elts {
+				if kv, ok := el.(*ast.KeyValueExpr); ok {
+					set[render(kv.Key)] = kv.Value
 				}
-				continue
 			}
-			if c, ok := ast.Unparen(v).(*ast.CallExpr); ok {
-				if isBuiltinCall(info, c, "make") || isBuiltinCall(info, c, "new") {
-					w.ok(key, v.Pos(), "bound to a fresh value (make/new)")
+			for i := 0; i < st.NumFields(); i++ {
+				f := st.Field(i)
+				key := "clone-field|result." + f.Name()
+				v, ok := set[f.Name()]
+				if !ok {
+					w.violation(key, cl.Pos(), "parser.Clone's copy does not set result."+f.Name()+": the clone silently loses it (a result without an AST then has no placeholder node and node lookups panic)")
 					continue
 				}
-			}
-			if ta, ok := ast.Unparen(v).(*ast.TypeAssertExpr); ok {
-				if c, ok := ast.Unparen(ta.X).(*ast.CallExpr); ok {
-					if f := callee(info, c); f != nil && f.Pkg() != nil && f.Pkg().Path() == "google.golang.org/protobuf/proto" && f.Name() == "Clone" {
-						w.ok(key, v.Pos(), "bound to a fresh value (proto.Clone)")
+				// shared or fresh?
+				if sel, ok := ast.Unparen(v).(*ast.SelectorExpr); ok && selField(info, sel) == f {
+					if why, ok := sharedOK[f.Name()]; ok {
+						w.ok(key, kv(v), "shared with the original on purpose: "+why)
+					} else {
+						w.violation(key, v.Pos(), "result."+f.Name()+" is copied by reference from the original: the clone shares mutable state with it")
+					}
+					continue
+				}
+				if c, ok := ast.Unparen(v).(*ast.CallExpr); ok {
+					if isBuiltinCall(info, c, "make") || isBuiltinCall(info, c, "new") {
+						w.ok(key, v.Pos(), "bound to a fresh value (make/new)")
 						continue
 					}
 				}
-			}
-			id, ok := ast.Unparen(v).(*ast.Ident)
-			if !ok {
-				w.undecided(key, v.Pos(), "cannot classify the value "+render(v)+" as fresh or shared")
-				continue
-			}
-			// definition of the identifier within Clone
-			fresh := ""
-			ast.Inspect(clone.Decl.Body, func(y ast.Node) bool {
-				switch s := y.(type) {
-				case *ast.AssignStmt:
-					for j, l := range s.Lhs {
-						if lid, ok := l.(*ast.Ident); ok && lid.Name == id.Name && j < len(s.Rhs) {
-							var c *ast.CallExpr
-							ast.Inspect(s.Rhs[j], func(z ast.Node) bool {
-								if cc, ok := z.(*ast.CallExpr); ok && c == nil {
-									c = cc
-								}
-								return c == nil
-							})
-							if c != nil {
-								if f := callee(info, c); f != nil && f.Pkg() != nil && f.Pkg().Path() == "google.golang.org/protobuf/proto" && f.Name() == "Clone" {
-									fresh = "proto.Clone"
-								}
-								if isBuiltinCall(info, c, "make") {
-									fresh = "make"
-								}
-							}
-						}
-					}
-				case *ast.ValueSpec:
-					for _, nm := range s.Names {
-						if nm.Name == id.Name && len(s.Values) == 0 {
-							if fresh == "" {
-								fresh = "zero value"
-							}
+				if ta, ok := ast.Unparen(v).(*ast.TypeAssertExpr); ok {
+					if c, ok := ast.Unparen(ta.X).(*ast.CallExpr); ok {
+						if f := callee(info, c); f != nil && f.Pkg() != nil && f.Pkg().Path() == "google.golang.org/protobuf/proto" && f.Name() == "Clone" {
+							w.ok(key, v.Pos(), "bound to a fresh value (proto.Clone)")
+							continue
 						}
 					}
 				}
-				return true
-			})
-			if fresh != "" {
-				w.ok(key, v.Pos(), "bound to a fresh value ("+fresh+")")
-			} else {
-				w.violation(key, v.Pos(), "result."+f.Name()+" is set from "+id.Name+", which is not a fresh copy (proto.Clone / make)")
+				id, ok := ast.Unparen(v).(*ast.Ident)
+				if !ok {
+					w.undecided(key, v.Pos(), "cannot classify the value "+render(v)+" as fresh or shared")
+					continue
+				}
+				// definition of the identifier within the function holding the literal
+				fresh := ""
+				ast.Inspect(curBody, func(y ast.Node) bool {
+					switch s := y.(type) {
+					case *ast.AssignStmt:
+						for j, l := range s.Lhs {
+							if lid, ok := l.(*ast.Ident); ok && lid.Name == id.Name && j < len(s.Rhs) {
+								var c *ast.CallExpr
+								ast.Inspect(s.Rhs[j], func(z ast.Node) bool {
+									if cc, ok := z.(*ast.CallExpr); ok && c == nil {
+										c = cc
+									}
+									return c == nil
+								})
+								if c != nil {
+									if f := callee(info, c); f != nil && f.Pkg() != nil && f.Pkg().Path() == "google.golang.org/protobuf/proto" && f.Name() == "Clone" {
+										fresh = "proto.Clone"
+									}
+									if isBuiltinCall(info, c, "make") {
+										fresh = "make"
+									}
+								}
+							}
+						}
+					case *ast.ValueSpec:
+						for _, nm := range s.Names {
+							if nm.Name == id.Name && len(s.Values) == 0 {
+								if fresh == "" {
+									fresh = "zero value"
+								}
+							}
+						}
+					}
+					return true
+				})
+				if fresh != "" {
+					w.ok(key, v.Pos(), "bound to a fresh value ("+fresh+")")
+				} else {
+					w.violation(key, v.Pos(), "result."+f.Name()+" is set from "+id.Name+", which is not a fresh copy (proto.Clone / make)")
+				}
 			}
-		}
-		return true
-	})
+			return true
+		})
+	}
 	w.floor("result literals in parser.Clone", nLit, 1)
 
 	// the original's proto may only be read through proto.Clone or as the read-only origProto argument
 	protoF := w.field("parser", "result", "proto")
 	recreate := w.fn("parser", "recreateNodeIndexForFile")
-	parents := parentMap(clone.Decl.Body)
 	nUses := 0
-	ast.Inspect(clone.Decl.Body, func(x ast.Node) bool {
-		isSrc := false
-		switch e := x.(type) {
-		case *ast.SelectorExpr:
-			isSrc = selField(info, e) == protoF
-		case *ast.CallExpr:
-			if s, ok := ast.Unparen(e.Fun).(*ast.SelectorExpr); ok && s.Sel.Name == "FileDescriptorProto" && len(e.Args) == 0 {
-				isSrc = true
+	for _, curBody := range scopeBodies {
+		parents := parentMap(curBody)
+		ast.Inspect(curBody, func(x ast.Node) bool {
+			isSrc := false
+			switch e := x.(type) {
+			case *ast.SelectorExpr:
+				isSrc = selField(info, e) == protoF
+			case *ast.CallExpr:
+				if s, ok := ast.Unparen(e.Fun).(*ast.SelectorExpr); ok && s.Sel.Name == "FileDescriptorProto" && len(e.Args) == 0 {
+					isSrc = true
+				}
 			}
-		}
-		if !isSrc {
+			if !isSrc {
+				return true
+			}
+			nUses++
+			key := "clone-proto-use|" + render(x.(ast.Expr))
+			par := parents[x]
+			for {
+				if pe, ok := par.(*ast.ParenExpr); ok {
+					par = parents[pe]
+					continue
+				}
+				break
+			}
+			if c, ok := par.(*ast.CallExpr); ok {
+				f := callee(info, c)
+				if f != nil && f.Pkg() != nil && f.Pkg().Path() == "google.golang.org/protobuf/proto" && f.Name() == "Clone" {
+					w.ok(key, x.Pos(), "the original descriptor proto is passed to proto.Clone")
+					return true
+				}
+				if recreate != nil && f == recreate.Obj && len(c.Args) == 4 && c.Args[2] == x {
+					w.ok(key, x.Pos(), "read-only origProto argument of recreateNodeIndexForFile")
+					return true
+				}
+			}
+			w.violation(key, x.Pos(), "the original result's descriptor proto escapes parser.Clone without being cloned: the copy shares mutable state with the resolver's value, which the linker then mutates")
 			return true
-		}
-		nUses++
-		key := "clone-proto-use|" + render(x.(ast.Expr))
-		par := parents[x]
-		for {
-			if pe, ok := par.(*ast.ParenExpr); ok {
-				par = parents[pe]
-				continue
-			}
-			break
-		}
-		if c, ok := par.(*ast.CallExpr); ok {
-			f := callee(info, c)
-			if f != nil && f.Pkg() != nil && f.Pkg().Path() == "google.golang.org/protobuf/proto" && f.Name() == "Clone" {
-				w.ok(key, x.Pos(), "the original descriptor proto is passed to proto.Clone")
-				return true
-			}
-			if recreate != nil && f == recreate.Obj && len(c.Args) == 4 && c.Args[2] == x {
-				w.ok(key, x.Pos(), "read-only origProto argument of recreateNodeIndexForFile")
-				return true
-			}
-		}
-		w.violation(key, x.Pos(), "the original result's descriptor proto escapes parser.Clone without being cloned: the copy shares mutable state with the resolver's value, which the linker then mutates")
-		return true
-	})
+		})
+	}
 	w.floor("uses of the original proto in parser.Clone", nUses, 2)
 
 	// key-kind agreement between the put*Node writers and the clone's index re-creation
